@@ -21,6 +21,14 @@ CLAIMED = {
              'claim holds for all strings of the bounded grammar, not for samples of it.',
         note='Assumes the symbolic regex matcher and string proxies agree with CPython (validated on one solver witness per path against the plain library) '
              'and the representative character domains (0-9 + 2 non-ASCII digits, 29 whitespace chars). Bounds in evidence.'),
+    'C10': dict(
+        category='model_checking', design_ref='DESIGN.md section 3 C10',
+        technique='symbolic execution of the real sort-key / distance / classifier functions on symbolic-character templates of the live event-code regex; z3 obligations on the returned terms',
+        text='Bounded symbolic checking over the template language of PAT_EVENT_CODE: totality is "no exception on any feasible path", the ordering clauses are '
+             'z3 obligations between the returned key terms and the digits matched by the patterns; text-key/tuple-key agreement follows from per-code structure '
+             'obligations plus a fixed-width lemma, and is cross-checked on symbolic template pairs.',
+        note='Assumes the symbolic matcher / string / formatting proxies agree with CPython (validated per path on a solver witness); float(text) of digits modelled as correctly '
+             'rounded rational (reals-with-rounding), so int(1000*qty) is only proved up to that abstraction. Bounds in evidence.'),
 }
 
 NOT_APPLICABLE = {
